@@ -64,7 +64,7 @@ const c04SysN = 3 * 261
 func (c04) Meta() core.Meta {
 	return core.Meta{
 		Level: "exploration",
-		Rule: "systematic: every message length 0..260 x {one Write, byte-by-byte Writes, io.Copy through a 7-byte-chunk pipe}; seeded: histories of <=40 ops (write, pump through io.Copy/io.CopyBuffer/io.MultiWriter/hand loop over a short-reading stalling pipe, Sum with prefix len/cap, double Sum, Reset, zero-length write) over messages 0..4096 bytes with chunk sizes biased to leave the block buffer at 0,1,55,56,63 and to straddle 64/128. " +
+		Rule: "systematic: every message length 0..260 x {one Write, byte-by-byte Writes, io.Copy through a 7-byte-chunk pipe}; seeded: histories of <=40 ops, 1 in 250 with 200-1200 ops and up to 128 KiB, 1 in 5 on two hash values used alternately (write, pump through io.Copy/io.CopyBuffer/io.MultiWriter/hand loop over a short-reading stalling pipe, Sum with prefix len/cap, double Sum, Reset, zero-length write) over messages 0..4096 bytes (long runs: 128 KiB) with chunk sizes biased to leave the block buffer at 0,1,55,56,63 and to straddle 64/128. " +
 			"non-trivial = a pipe fault fired, a peek/reset happened mid-stream, or a write straddled a block boundary; distinct = distinct (op-kind sequence, buffer-fill classes at each Sum, pump kinds, faults fired)",
 		Components: map[string]string{"sm3.New/Write/Sum/Reset/SumSM3": "real", "io.Copy/io.CopyBuffer/io.MultiWriter": "real (stdlib consumers of Write's return value)",
 			"byte source": "stub (simulated pipe)", "oracle": "sm3ref (GB/T 32905 transcribed; anchored on A.1/A.2)"},
@@ -115,8 +115,13 @@ func (c04) Generate(idx int, r *core.Rand, tier string) core.Script {
 	if w.Chance(1, 8) {
 		nops = w.Range(24, 40)
 	}
+	limit := 4096
+	if w.Chance(1, 250) { // a long-lived hash value: hundreds of operations, up to 128 KiB
+		nops = w.Range(200, 1200)
+		limit = 1 << 17
+	}
 	total := 0
-	for i := 0; i < nops && total < 4096; i++ {
+	for i := 0; i < nops && total < limit; i++ {
 		switch {
 		case enPeek && w.Chance(1, 5):
 			op := c04Op{Kind: "sum", Twice: w.Chance(1, 3)}
@@ -139,15 +144,18 @@ func (c04) Generate(idx int, r *core.Rand, tier string) core.Script {
 					op.Chunks = append(op.Chunks, pipe.Step{N: c04Chunk(f)})
 				}
 			}
-			if total+op.N > 4096 {
-				op.N = 4096 - total
+			if total+op.N > limit {
+				op.N = limit - total
 			}
 			total += op.N
 			s.Ops = append(s.Ops, op)
 		default:
 			n := c04Chunk(w)
-			if total+n > 4096 {
-				n = 4096 - total
+			if limit > 4096 && w.Chance(1, 10) {
+				n = w.PickInt(1000, 4096, 5000, 16384, 20000)
+			}
+			if total+n > limit {
+				n = limit - total
 			}
 			total += n
 			s.Ops = append(s.Ops, c04Op{Kind: "write", N: n})
